@@ -7,6 +7,7 @@ import (
 	"sort"
 	"strings"
 	"sync"
+	"sync/atomic"
 	"time"
 
 	"golang.org/x/tools/go/ssa"
@@ -594,8 +595,15 @@ func resolveCallee(cs *ContractSet, pkg, name string) string {
 }
 
 // SolveAll discharges obligations in parallel.
+// noFailFast: the development command `verify` wants every obligation decided with the full time-out
+var noFailFast bool
+
 func SolveAll(obls []*Obligation, timeout time.Duration, needAll bool, workers int) {
 	var wg sync.WaitGroup
+	// once several obligations have failed the check is failing whatever the rest answers: the remaining obligations
+	// then get a short time-out, so that a change which breaks many of them does not keep the check busy for an hour
+	var failed int32
+	const failFastAfter, failFastTimeout = 6, 15 * time.Second
 	ch := make(chan *Obligation)
 	for i := 0; i < workers; i++ {
 		wg.Add(1)
@@ -617,9 +625,20 @@ func SolveAll(obls []*Obligation, timeout time.Duration, needAll bool, workers i
 				if o.Quick && to > 10*time.Second {
 					to = 10 * time.Second
 				}
+				reduced := false
+				if !noFailFast && atomic.LoadInt32(&failed) >= failFastAfter && to > failFastTimeout {
+					to = failFastTimeout
+					reduced = true
+				}
 				q := addUnfoldings(o.Decls, o.Query)
 				r := Solve(sliceDecls(o.Decls, q)+q, gv, to, needAll && o.Expect != "sat")
 				o.Result = &r
+				if !o.OK() && !o.Quick {
+					atomic.AddInt32(&failed, 1)
+					if reduced && r.Status != "sat" {
+						r.Output += fmt.Sprintf("\n(time-out reduced to %s after %d other obligations had failed)", failFastTimeout, failFastAfter)
+					}
+				}
 			}
 		}()
 	}
